@@ -4,7 +4,7 @@ import json, os
 HERE = os.path.dirname(os.path.dirname(os.path.abspath(__file__)))
 
 CHECKS = {
- "C18": dict(level="exploration", engine="driver + rapidcheck + hypothesis", technique="exhaustive generator-output diff (18 files) and exhaustive ELF inspection; generated-input execution of every assembly routine - natively through an ABI trampoline (x86-64), in a freestanding -m32 program (i386), and by instruction-level interpreters of the file text (other targets) - against the reference permutation and ABI rules (integer and x87/MMX/flag state natively; callee-saved sets, memory footprint, interworking returns in the interpreters); the ARM, Thumb, AArch64, RISC-V and AVR files are additionally assembled for their own target with clang's integrated assembler and the objects' symbol tables inspected",
+ "C18": dict(level="exploration", engine="driver + rapidcheck + hypothesis", technique="exhaustive generator-output diff (18 files) and exhaustive ELF inspection; generated-input execution of every assembly routine - natively through an ABI trampoline (x86-64), in a freestanding -m32 program (i386), and by instruction-level interpreters of the file text (other targets) - against the reference permutation and ABI rules (integer and x87/MMX/flag state natively; callee-saved sets, memory footprint, interworking returns in the interpreters); every text the preprocessor can select from a file (subsets of the macros it tests) is a target of its own; generators are built with signed and unsigned plain char; the ARM, Thumb, AArch64, RISC-V and AVR files are additionally assembled for their own target with clang's integrated assembler and the objects' symbols, encodings, section alignment and BTI promise inspected",
              text="Generator identity and executable-stack freedom are finite and enumerated completely; functional correctness and ABI conformance of the assembly text are explored with generated states, rounds and register contents against the independent reference permutation through each backend's documented state layout.",
              note="Interpreters are part of the trusted base (cross-checked on the unchanged tree); files not yet covered by execution are listed under coverage.uncovered, never silently passed.", ref="4/C18"),
  "C11": dict(level="exploration", engine="rapidcheck + valgrind", technique="rapidcheck-generated public shapes x random secrets with memcheck definedness used as a dynamic taint oracle on the shipped -O3 object code (assembly included); VALGRIND_COUNT_ERRORS brackets each case so reports shrink",
